@@ -214,6 +214,7 @@ func (s *session) commit(r *sessionRecord, trivial bool) (err error) {
 
 	// spawn new version based on current version
 	nv := v.spawn(r, trivial)
+	verifTrace(s, "c:begin", nv.id)
 
 	// abandon useless version id to prevent blocking version processing loop.
 	defer func() {
@@ -237,6 +238,7 @@ func (s *session) commit(r *sessionRecord, trivial bool) (err error) {
 	if err == nil {
 		s.setVersion(r, nv)
 	}
+	verifTrace(s, "c:end", nv.id, verifB(err != nil))
 
 	return
 }
